@@ -156,6 +156,7 @@ Definition pop : parser op :=
   | 78 => pret OpInspect                                             (* N *)
   | 72 => pret OpHelp                                                (* H *)
   | 77 => pret OpMan                                                 (* M *)
+  | 65 => (a <~ pattach ;; pret (OpAttach a))                        (* A *)
   | _ => (n <~ pN ;; pret (OpWriteIni n))                            (* W *)
   end.
 
